@@ -24,6 +24,8 @@ import (
 // result does not fit; shift counts ≥256 give 0).
 
 const (
+	sigMultisigRef = "CHECKMULTISIG does not compute the order-preserving injection of signatures into public keys"
+	sigChecksigRef = "CHECKSIG does not return the Ed25519 verdict"
 	sigLshift = "LSHIFT drops the bits shifted out of the 256-bit word instead of failing with ErrRange"
 )
 
@@ -646,6 +648,163 @@ func c08oracle(c *Ctx, op byte, k *vmCase, res vmResult) {
 	}
 }
 
+// c08smallNum: a canonical small non-negative number operand (what well-formed multisig stacks use)
+func c08smallNum(b []byte) (int, bool) {
+	n, e := c08asNum(b)
+	if e != "" || n.BitLen() > 20 {
+		return 0, false
+	}
+	return int(n.Int64()), true
+}
+
+// c08embeds: is there a strictly increasing map of the signatures (in pop order) into the keys
+// (in pop order) such that every signature verifies under its key?  Exhaustive search with the
+// real ed25519.Verify — the specification, not the implementation's greedy scan.
+func c08embeds(sigs, keys [][]byte, msg []byte, from int) bool {
+	if len(sigs) == 0 {
+		return true
+	}
+	for i := from; i < len(keys); i++ {
+		if len(keys[i]) == ed25519.PublicKeySize && ed25519.Verify(ed25519.PublicKey(keys[i]), msg, sigs[0]) &&
+			c08embeds(sigs[1:], keys, msg, i+1) {
+			return true
+		}
+	}
+	return false
+}
+
+// c08sigOracle: CHECKSIG / CHECKMULTISIG on a well-formed stack given as arguments, ample gas:
+// the pushed boolean must be the specification's verdict computed from real Ed25519 verdicts.
+func c08sigOracle(c *Ctx, op byte, k *vmCase, res vmResult) {
+	if len(k.code) != 1 || k.limit < 50000 || k.vmVersion != 1 || (op != 0xac && op != 0xad) {
+		return
+	}
+	a := k.args
+	var want bool
+	var consumed int
+	sig := sigMultisigRef
+	if op == 0xac {
+		sig = sigChecksigRef
+		if len(a) < 3 || len(a[len(a)-2]) != 32 {
+			return
+		}
+		pk, msg, sg := a[len(a)-1], a[len(a)-2], a[len(a)-3]
+		want = len(pk) == ed25519.PublicKeySize && ed25519.Verify(ed25519.PublicKey(pk), msg, sg)
+		consumed = 3
+	} else {
+		if len(a) < 2 {
+			return
+		}
+		n, ok1 := c08smallNum(a[len(a)-1])
+		m, ok2 := c08smallNum(a[len(a)-2])
+		if !ok1 || !ok2 || m > n || (n > 0 && m == 0) || len(a) < 3+n+m {
+			return
+		}
+		var keys, sigs [][]byte
+		for i := 0; i < n; i++ {
+			keys = append(keys, a[len(a)-3-i])
+		}
+		msg := a[len(a)-3-n]
+		if len(msg) != 32 {
+			return
+		}
+		for j := 0; j < m; j++ {
+			sigs = append(sigs, a[len(a)-4-n-j])
+		}
+		want = true
+		for _, p := range keys {
+			if len(p) != ed25519.PublicKeySize {
+				want = false
+			}
+		}
+		want = want && c08embeds(sigs, keys, msg, 0)
+		consumed = 3 + n + m
+	}
+	c.Count("oracle/signature")
+	c.Count(fmt.Sprintf("oracle/signature/%v", want))
+	wantClass := "falseVMResult"
+	if want {
+		wantClass = "ok"
+	}
+	got := res.sink.sinceVM
+	bad := ""
+	switch {
+	case res.class != wantClass:
+		bad = fmt.Sprintf("specification demands %v (%s), implementation answered %s", want, wantClass, res.class)
+	case len(got) != len(a)-consumed+1:
+		bad = fmt.Sprintf("stack has %d items, expected %d", len(got), len(a)-consumed+1)
+	case !bytes.Equal(got[0], c08bool(want)):
+		bad = fmt.Sprintf("pushed %x, specification demands %v", got[0], want)
+	}
+	if bad != "" {
+		failCapped(c, sig, fmt.Sprintf("args=%s: %s", hxList(a), bad))
+	}
+}
+
+// c08multisigFamily: for n keys (optionally with a duplicated key) every tuple of m <= n signers
+// drawn from the listed keys and one non-listed key — repeated signatures, wrong order, every
+// subset, outsiders — on the fixed message.
+func (g *c08gen) multisigFamily(c *Ctx) {
+	msg := g.msgs[0]
+	maxN := 3
+	if c.Tier != "quick" {
+		maxN = 4
+	}
+	sigOf := map[int][]byte{}
+	for i, k := range g.keys {
+		sigOf[i] = ed25519.Sign(k.priv, msg)
+	}
+	outsider := vmKeys(5)[4]
+	sigOf[len(g.keys)] = ed25519.Sign(outsider.priv, msg)
+	for n := 1; n <= maxN && n <= len(g.keys); n++ {
+		for _, dup := range []bool{false, true} {
+			keyIdx := make([]int, n)
+			for i := range keyIdx {
+				keyIdx[i] = i
+			}
+			if dup {
+				if n < 2 {
+					continue
+				}
+				keyIdx[1] = 0 // the first key listed twice
+			}
+			signers := append([]int{}, keyIdx...)
+			signers = append(signers, len(g.keys)) // plus the non-listed key
+			for m := 1; m <= n; m++ {
+				total := 1
+				for i := 0; i < m; i++ {
+					total *= len(signers)
+				}
+				for t := 0; t < total; t++ {
+					var st [][]byte
+					x := t
+					for j := 0; j < m; j++ {
+						st = append(st, sigOf[signers[x%len(signers)]])
+						x /= len(signers)
+					}
+					st = append(st, msg)
+					for _, ki := range keyIdx {
+						st = append(st, cp(g.keys[ki].pub))
+					}
+					st = append(st, leBytes(big.NewInt(int64(m))), leBytes(big.NewInt(int64(n))))
+					k := &vmCase{vmVersion: 1, limit: 100000, code: []byte{0xad}, args: st, entryID: make([]byte, 32), txVersion: u64p(1)}
+					k.fillSigs()
+					c08one(c, 0xad, "multisig-family", k)
+				}
+			}
+		}
+	}
+	// CHECKSIG: every (signer, key) pair
+	for si := 0; si <= len(g.keys); si++ {
+		for ki := range g.keys {
+			k := &vmCase{vmVersion: 1, limit: 100000, code: []byte{0xac}, args: [][]byte{sigOf[si], msg, cp(g.keys[ki].pub)},
+				entryID: make([]byte, 32), txVersion: u64p(1)}
+			k.fillSigs()
+			c08one(c, 0xac, "checksig-family", k)
+		}
+	}
+}
+
 func c08one(c *Ctx, op byte, mode string, k *vmCase) {
 	res := runVMCase(k)
 	line := k.line()
@@ -664,10 +823,11 @@ func c08one(c *Ctx, op byte, mode string, k *vmCase) {
 	c.Count(fmt.Sprintf("op-class/%s/%s", name, res.class))
 	c.Distinct(line)
 	c08oracle(c, op, k, res)
+	c08sigOracle(c, op, k, res)
 }
 
 func runC08(c *Ctx) {
-	c.Rule = "for each of the 256 opcode bytes: programs `[pushes] OP [immediate bytes]` on stacks that are empty, one operand short, shaped for the opcode (numbers from the boundary set 0,1,2^31..2^255±1,2^256-1, non-minimal zeros, 33-byte values; byte strings of 0..40/64/75/76 bytes; real Ed25519 keys, messages and (sometimes corrupted) signatures; predicates; CHECKMULTISIG layouts) or random (1..8 items), with the stack passed as arguments or built by pushes, gas limits 0..300, ..3000, 100000 and MaxGasAmount, with full / partial / absent transaction context; numeric opcodes additionally on the full boundary×boundary grid; a case is distinct by its whole op line"
+	c.Rule = "for each of the 256 opcode bytes: programs `[pushes] OP [immediate bytes]` on stacks that are empty, one operand short, shaped for the opcode (numbers from the boundary set 0,1,2^31..2^255±1,2^256-1, non-minimal zeros, 33-byte values; byte strings of 0..40/64/75/76 bytes; real Ed25519 keys, messages and (sometimes corrupted) signatures; predicates; CHECKMULTISIG layouts) or random (1..8 items), with the stack passed as arguments or built by pushes, gas limits 0..300, ..3000, 100000 and MaxGasAmount, with full / partial / absent transaction context; numeric opcodes additionally on the full boundary×boundary grid; CHECKMULTISIG with n <= 3 (4 in the thorough tier) keys, optionally one key listed twice, and EVERY m-tuple (m <= n) of signers drawn from the listed keys and one non-listed key (repeated signatures, wrong order, all subsets), CHECKSIG on every signer x key pair, with real Ed25519 signatures; a case is distinct by its whole op line"
 	g := &c08gen{c: c, keys: vmKeys(4), bnd: vmBoundaryNumbers()}
 	for i := 0; i < 2; i++ {
 		m := bytes.Repeat([]byte{byte(0xa0 + i)}, 32)
@@ -738,6 +898,8 @@ func runC08(c *Ctx) {
 			}
 		}
 	}
+	// CHECKSIG / CHECKMULTISIG semantics against real Ed25519 verdicts
+	g.multisigFamily(c)
 	// shaped / random cases per opcode
 	for op := 0; op < 256; op++ {
 		n := c.N
